@@ -491,7 +491,8 @@ func (e *engine) Close() (err error) {
 	defer e.mux.Unlock()
 	e.sortedCompiledModules = nil
 	e.compiledModules = nil
-	e.sharedFunctions = nil
+	// e.sharedFunctions is kept: a compilation overlapping Close reads it without e.mux,
+	// and its finalizer releases it once the engine and the compiled modules are gone.
 	return nil
 }
 
